@@ -67,6 +67,12 @@ class TurnFailed(Exception):
 
 ID = "C10"
 PROP_MODULES = ["WV.Props.C10"]
+# translation validation of the Dilation method bodies (tools/extract.py::extract_pyir_dil -> WV/Gen/PyIRDil.lean,
+# interpreter WV/Model/PyIR.lean): part of the check as soon as the module is installed (agents/deepPyIRdil_integration.md)
+import os as _os
+if _os.path.exists(_os.path.join(_os.path.dirname(_os.path.dirname(_os.path.dirname(_os.path.abspath(__file__)))),
+                                 "lean", "WV", "Props", "PyIR_C10.lean")):
+    PROP_MODULES.append("WV.Props.PyIR_C10")
 TRUSTED = [
     "below the Manager's ISend the mailbox connection is a stub (ClientService replaced inside the harness process): the "
     "dilation key, the peer's versions and its PLEASE are handed to the Manager built by wormhole.create().dilate() "
